@@ -74,7 +74,8 @@ Inductive result :=
 | RCred (c : cred)
 | RErrFormat          (* config.ErrInvalidConfigFormat *)
 | RErrBadCred         (* credentials.ErrBadCredentialFormat *)
-| RErrPutDisabled.    (* credentials.ErrPlaintextPutDisabled *)
+| RErrPutDisabled     (* credentials.ErrPlaintextPutDisabled *)
+| RErrIO.             (* saveFile failed (an I/O error) *)
 
 Inductive op :=
 | Get (a : str)
@@ -288,6 +289,22 @@ Section Model.
     | Delete a => match lookup a (m_cache (st_mem st)) with Some _ => true | None => false end
     | SetCs _ => true
     end.
+
+  (* an operation whose save fails with an I/O error: Put/Delete/SetCredentialsStore
+     undo their cache update and report the error -- nothing changes ([io_fails]
+     says whether the save of this operation fails; operations that do not save
+     cannot fail) *)
+  Definition step_io (io_fails : bool) (st : state) (o : op) : state * result :=
+    if io_fails && saves st o then (st, RErrIO) else step st o.
+
+  (* history: before the fix "a failed save no longer leaves the in-memory cache
+     changed" the update stayed in memory (the file, of course, kept the old
+     document) *)
+  Definition step_io_prefix (io_fails : bool) (st : state) (o : op) : state * result :=
+    if io_fails && saves st o
+    then ({| st_mem := st_mem (fst (step st o)); st_file := st_file st |}, RErrIO)
+    else step st o.
+
 
   (* ---------- concurrency: threads are sequences of operations; every
      operation is one critical section of the RWMutex.  A schedule names the
